@@ -21,9 +21,6 @@ MAX_LOOP_ROUNDS = 6
 # attributes that carry the same value through the constructor chain
 # makeService -> make_server -> Server -> AppNamespace -> Mailbox; the chain
 # itself is checked by rule R-plumb (sa/rules/shared.py).
-CFG_ATTRS = {"_usage_db": "usage_db", "_blur_usage": "blur_usage",
-             "_allow_list": "allow_list", "_log_requests": "log_requests",
-             "_log_file": "log_file", "_welcome": "welcome"}
 CFG_CLASSES = ("Server", "AppNamespace", "Mailbox")
 
 DB_METHODS = ("execute", "executescript", "commit", "close", "rollback")
@@ -115,8 +112,10 @@ class Raised(Exception):
 
 
 class InterpBase(object):
-    def __init__(self, repo):
+    def __init__(self, repo, server_slots=None):
         self.repo = repo
+        self.server_slots = dict(server_slots or {})
+        self.names = None
         self.closures = {}     # id -> (FuncInfo, Frame)
         self.coll_adds = {}    # coll site -> list of dict(elem, pc, site, func)
         self.npaths = 0
@@ -162,6 +161,29 @@ class InterpBase(object):
                                          isinstance(n.value.func, ast.Name) and
                                          n.value.func.id in repo.classes]
                                 call = cands[0] if len(cands) == 1 else None
+                            key_expr = t.slice
+                            factory = None
+                            if isinstance(call, ast.Call) and \
+                                    isinstance(call.func, ast.Attribute) and \
+                                    isinstance(call.func.value, ast.Name) and \
+                                    call.func.value.id == "self" and \
+                                    call.func.attr in cd["methods"]:
+                                # self.R[k] = self._make(k): a factory method
+                                # whose only result is T(...)
+                                fac = cd["methods"][call.func.attr]
+                                rets = [n.value for n in ast.walk(fac.node)
+                                        if isinstance(n, ast.Return) and n.value is not None]
+                                if len(rets) == 1 and isinstance(rets[0], ast.Call) and \
+                                        isinstance(rets[0].func, ast.Name) and \
+                                        rets[0].func.id in repo.classes:
+                                    if isinstance(key_expr, ast.Name):
+                                        for i, a in enumerate(call.args):
+                                            if isinstance(a, ast.Name) and a.id == key_expr.id \
+                                                    and i + 1 < len(fac.params):
+                                                key_expr = ast.Name(id=fac.params[i + 1],
+                                                                    ctx=ast.Load())
+                                    factory = (fac, call)
+                                    call = rets[0]
                             if isinstance(call, ast.Call) and \
                                     isinstance(call.func, ast.Name) and \
                                     call.func.id in repo.classes:
@@ -169,8 +191,10 @@ class InterpBase(object):
                                     "owner": cname, "attr": t.value.attr,
                                     "value_cls": call.func.id,
                                     "construct": call,
-                                    "key_expr": t.slice,
-                                    "func": meth,
+                                    "key_expr": key_expr,
+                                    "func": meth if factory is None else factory[0],
+                                    "store_func": meth,
+                                    "factory": factory,
                                 }
         # id attribute of each registry's value class (the slot the key goes to)
         self.id_attrs = set()
@@ -196,8 +220,6 @@ class InterpBase(object):
                         isinstance(n.value, ast.Name) and n.value.id == pname:
                     r["id_attr"] = n.targets[0].attr
                     self.id_attrs.add((r["value_cls"], n.targets[0].attr))
-        for c in CFG_CLASSES:
-            self.id_attrs.add((c, "_app_id"))
         # listener closures: non-test call sites of add_listener
         self.listener_closures = []
         for f in repo.all_functions():
@@ -208,6 +230,11 @@ class InterpBase(object):
                     self.listener_closures.append((f, node))
         # attribute class typing
         self._infer_attr_types()
+        # attribute roles (configuration slots, id attributes, listener table)
+        from .names import Names
+        self.names = Names(self, self.server_slots)
+        for c, a in self.names.app_id_attr.items():
+            self.id_attrs.add((c, a))
 
     def _expr_type(self, expr, cls, func, depth=0):
         """class name of an expression, None for const None, '?' unknown"""
@@ -243,6 +270,10 @@ class InterpBase(object):
             if r:
                 return r["value_cls"]
             return "?"
+        if isinstance(expr, ast.Attribute) and isinstance(expr.value, ast.Name) and \
+                expr.value.id == "self" and depth > 0:
+            # x = self.attr ... self.attr = x: says nothing new about the type
+            return None
         if isinstance(expr, ast.Name):
             if expr.id == "self":
                 return cls
